@@ -2002,6 +2002,8 @@ fn generate_autocoerce(
 					let address = reference.generate_storage_address(llvm)?;
 					generate_array_slice(address, element_type, *length, llvm)
 				}
+				// A slice pointer has the representation of the slice.
+				ValueType::SlicePointer { .. } => expression.generate(llvm),
 				_ => unimplemented!(),
 			},
 			Expression::ArrayLiteral {
